@@ -370,6 +370,20 @@ def cli_inprocess(project, tokens):
         os.chdir(cwd)
 
 
+def cli_selection_inprocess(project, tokens):
+    """The selection that `signac diff|schema|sync -f <tokens>` work on (None = no selection given = every job)."""
+    from signac.__main__ import _find_with_filter_or_none
+
+    cwd = os.getcwd()
+    os.chdir(project.path)
+    try:
+        with contextlib.redirect_stderr(io.StringIO()):
+            sel = _find_with_filter_or_none(argparse.Namespace(filter=list(tokens), job_id=None))
+        return {j.id for j in project} if sel is None else set(sel)
+    finally:
+        os.chdir(cwd)
+
+
 def run_case(ctx, case):
     from signac.filterparse import parse_filter_arg
 
@@ -432,6 +446,16 @@ def run_case(ctx, case):
             if got2 != canon:
                 ctx.violation("cli-find-differs", "the CLI filter path selects different jobs",
                               {"canonical": flt, "tokens": toks, "got": got2, "want": sorted(canon)})
+            if toks:
+                # the other sub-commands that take -f/--filter (diff, schema, sync) select through their own helper
+                try:
+                    got4 = cli_selection_inprocess(project, toks)
+                except Exception as ex:  # noqa
+                    got4 = repr(ex)
+                if got4 != canon:
+                    ctx.violation("cli-filter-option-differs", "the -f/--filter option of diff / schema / sync selects different jobs",
+                                  {"canonical": flt, "tokens": toks, "got": sorted(got4) if isinstance(got4, set) else got4,
+                                   "want": sorted(canon)})
             if kind == "simple" and all(" " not in t and "\t" not in t for t in toks) and toks:
                 got3, e3 = query.find_ids(project, " ".join(toks))
                 if e3 is not None or got3 != canon:
